@@ -1387,6 +1387,116 @@ def entry_shapes(ast_line):
     return shapes
 
 
+# --------------------------------------------------------------------------------------------
+# the literal-operator family (fourth wave, C03-d2): the implementation-side test of C03_pure_total_never_errors.
+# Every binary / unary operator x every pair of LITERAL operand kinds (number, string, boolean, null, array, template
+# string, literal-only trees of depth 2), as the right-hand side of (a) an unused declaration, (b) an overwritten store,
+# (c) the return expression of a function whose call result is dead, (d) an expression statement.  Acceptance is taken
+# from the real front end; the oracle is the usual one (plain run = pruned run, outputs and ending); the extracted
+# classifier puts a pruned literal-only tree its typing refuses in NO class (broken obligation).
+
+_LIT_OPERANDS = [("n", "3"), ("n", "0"), ("s", '"s"'), ("b", "true"), ("b", "false"), ("z", "null"), ("a", "[1, 2]"), ("s", '"t{w}"')]
+_BINOPS = ["add", "minus", "times", "divide", "mod", "and", "or", "na", "pass", "small pass"]
+_UNOPS = ["not", "minus"]
+
+
+def _lit_bin_ty(op, a, b):
+    """replica of PlanCheck.bin_ty, used ONLY to pack trees that should not trap into one program"""
+    if a is None or b is None:
+        return None
+    if op == "add":
+        if a == "n" and b == "n":
+            return "n"
+        return "s" if (a, b) in (("s", "s"), ("s", "n"), ("n", "s")) else None
+    if op in ("minus", "times"):
+        return "n" if a == "n" and b == "n" else None
+    if op in ("divide", "mod"):
+        return None
+    if op in ("and", "or"):
+        return "b" if a in "bz" and b in "bz" else None
+    if (a, b) in (("n", "n"), ("s", "s"), ("b", "b")) or a == "z" or b == "z":
+        return "b"
+    return None
+
+
+def _lit_un_ty(op, a):
+    if a is None:
+        return None
+    if op == "not":
+        return "b" if a in "bz" else None
+    return "n" if a == "n" else None
+
+
+def literal_trees(full):
+    """-> [(type predicted by the replica or None, source text)]"""
+    trees = []
+    for op in _BINOPS:
+        for ta, a in _LIT_OPERANDS:
+            for tb, b in _LIT_OPERANDS:
+                trees.append((_lit_bin_ty(op, ta, tb), "%s %s %s" % (a, op, b)))
+    for op in _UNOPS:
+        for ta, a in _LIT_OPERANDS:
+            trees.append((_lit_un_ty(op, ta), "%s %s" % (op, a)))
+    # depth 2: one operand is itself a literal-only tree (parenthesised), the other a literal
+    inner = [(t, "(%s)" % e) for t, e in trees if (" add " in e or " and " in e or " na " in e or e.startswith("not ") or " minus " in e)]
+    # a spread over the predicted types (number, string, boolean, refused)
+    by = {}
+    for t, e in inner:
+        by.setdefault(t, []).append((t, e))
+    per = 10 if full else 2
+    inner = [x for t in sorted(by, key=str) for x in by[t][::max(1, len(by[t]) // per)][:per]]
+    for ti, ie in inner:
+        for op in _BINOPS:
+            for tb, b in (_LIT_OPERANDS if full else [_LIT_OPERANDS[0], _LIT_OPERANDS[2], _LIT_OPERANDS[3], _LIT_OPERANDS[5]]):
+                trees.append((_lit_bin_ty(op, ti, tb), "%s %s %s" % (ie, op, b)))
+                trees.append((_lit_bin_ty(op, tb, ti), "%s %s %s" % (b, op, ie)))
+        for op in _UNOPS:
+            trees.append((_lit_un_ty(op, ti), "%s %s" % (op, ie)))
+    return trees
+
+
+def _lit_context(k, ctx, tree):
+    """statements exercising one tree in context ctx (0..3); k numbers the tagged shouts"""
+    if ctx == 0:
+        return ["make u%d get %s" % (k, tree), 'shout("@%d@" add to_string(%d))' % (k, k)]
+    if ctx == 1:
+        return ['make v%d get "i"' % k, "v%d get %s" % (k, tree), 'v%d get "o"' % k, 'shout("@%d@" add to_string(v%d))' % (k, k)]
+    if ctx == 2:
+        return ["do f%d() start" % k, "  return %s" % tree, "end", 'make r%d get "i"' % k, "r%d get f%d()" % (k, k), 'r%d get "o"' % k,
+                'shout("@%d@" add to_string(r%d))' % (k, k)]
+    return ["%s" % tree, 'shout("@%d@" add to_string(%d))' % (k, k)]
+
+
+def literal_family(env, quick):
+    trees = literal_trees(not quick)
+    cases = []
+    pack, n = [], 0
+    for idx, (ty, tree) in enumerate(trees):
+        off = env.seed if hasattr(env, "seed") else 0
+        if quick:
+            # (d) a bare literal tree is almost never a statement for the parser: thorough tier only
+            ctxs = [0, 1, 2] if idx < 672 else [(idx + off) % 3]
+        else:
+            ctxs = [0, 1, 2, 3] if idx < 672 else [idx % 4, (idx + 2) % 4]
+        for ctx in sorted(set(ctxs)):
+            if ty is not None and ctx != 3:
+                pack.append((ctx, tree))            # predicted trap-free: many per program
+                if len(pack) == 12:
+                    cases.append(pack)
+                    pack = []
+            else:
+                cases.append([(ctx, tree)])         # predicted to trap (or an expression statement): alone
+    if pack:
+        cases.append(pack)
+    out = []
+    for ci, items in enumerate(cases):
+        lines = ["make w get 1", 'shout("@0@" add to_string(w))']
+        for k, (ctx, tree) in enumerate(items):
+            lines += _lit_context(k + 1, ctx, tree)
+        out.append(("lit/%d" % ci, "\n".join(lines) + "\n"))
+    return out
+
+
 def doc_programs():
     """/repo/examples/*.ns and the fenced code blocks of README.md and docs/*.md"""
     repo = os.environ.get("VERIF_REPO", "/repo")
@@ -1800,6 +1910,39 @@ def correspond(env, searching=False, model=True):
                                                "endings": dict((c, e[0][:40]) for c, e in ((brecs.get(cid) or {}).get("runs") or {}).items()),
                                                "expected": "plan prunes the store; plain run: timeout; pruned run: ok; not compared"}) for cid, _ in bnd)
         out["failures"] += bout["failures"]
+    # 1d. the literal-operator family
+    lit = literal_family(env, quick)
+    lo = new_out()
+    lrecs = run_stream(env, "litops", lit, lo, model=model, timeout=600)
+    # a pack the front end rejects, or whose plain run did not finish, hides the other trees: run its trees singly
+    redo = []
+    for cid, src in lit:
+        r = lrecs.get(cid) or {}
+        if src.count("@") > 6 and (not r.get("accepted") or langrun.ending_class((r.get("runs") or {}).get("nn", ("ok", ""))[0]) != "ok"):
+            body = src.split("\n")[2:]
+            chunk = []
+            for ln in body:
+                chunk.append(ln)
+                if ln.startswith("shout("):
+                    redo.append(("%s/%d" % (cid, len(redo)), "make w get 1\n" + "\n".join(chunk) + "\n"))
+                    chunk = []
+    if redo:
+        run_stream(env, "litops2", redo, lo, model=model, timeout=600)
+    for k in ("failures", "disagreements"):
+        out[k] += lo[k]
+    out["evaluations"] += lo["evaluations"]
+    for k, v in lo.get("classes", {}).items():
+        out["classes"][k] = out["classes"].get(k, 0) + v
+    for k, v in lo.get("classes3", {}).items():
+        out.setdefault("classes3", {})[k] = out.setdefault("classes3", {}).get(k, 0) + v
+    out["entries_unproved"] = out.get("entries_unproved", 0) + lo.get("entries_unproved", 0)
+    for k, v in lo.get("unproved_shapes", {}).items():
+        out.setdefault("unproved_shapes", {})[k] = out.setdefault("unproved_shapes", {}).get(k, 0) + v
+    out["nontrivial"] |= lo["nontrivial"]
+    nerr = sum(1 for r in lrecs.values() if "Type_mismatch" in ((r.get("runs") or {}).get("nn", ("", ""))[0]) or "Division" in ((r.get("runs") or {}).get("nn", ("", ""))[0]))
+    out["literal_family"] = {"programs": len(lit) + len(redo), "accepted_by_the_front_end": lo["accepted"], "rejected": lo["rejected"],
+                             "plain_run_ends_in_a_runtime_error": nerr, "plans_nonempty": lo["plans_nonempty"],
+                             "model_compare": lo["compare"]}
     # 2. generated programs
     n = 600 if quick else 12000
     if searching:
@@ -1854,6 +1997,7 @@ def correspond(env, searching=False, model=True):
                   "flow_sensitive_dead_stores_covered_by_the_liveness_theorem": c3.get("L:DS", 0),
                   "plans_fully_covered_by_the_four_class_theorem": out.get("plans_fully_covered3", 0),
                   "programs_the_liveness_checker_rejects_structurally": out.get("liveness_structural_rejects", 0),
+                  "literal_operator_family": out.get("literal_family", {}),
                   "boundary_programs_not_compared": out.get("boundary_programs", "thorough tier only"),
                   "entries_outside_every_proved_class": out.get("entries_unproved", 0),
                   "unproved_entry_shapes": out.get("unproved_shapes", {}),
